@@ -2,6 +2,7 @@
 //! one canonical result line per case.
 mod asyncsrc;
 mod chain;
+mod convert;
 mod finalize;
 mod flatten;
 mod group;
@@ -37,6 +38,9 @@ fn run_case(case: &Sexp) -> String {
     "atform" => timed::run_atform(body),
     "subalg" => subalg::run_subalg(body),
     "retire" => retire::run_retire(body),
+    "tofuture" => convert::run_tofuture(body),
+    "tostream" => convert::run_tostream(body),
+    "status" => convert::run_status(body),
     "share" => share::run_share(body),
     "indep" => indep::run_indep(body),
     "tree" => tree::run_tree(body),
